@@ -1,10 +1,54 @@
-"""Cluster-specific parameter extractors; each adds its keys to the dict `p`."""
+"""Cluster-specific parameter extractors; each adds its keys to the dict `p`.
+
+A failing extractor (e.g. a mutation of tbot makes the real `_init_shell` raise) must not blind
+the checks of the other clusters: its keys are then taken from the cache of the last successful
+extraction (`lean/TbotVerif/Generated/params_cache.json`) and its name is recorded under
+`p["_failed"]`; the runner reports checks that depend on a failed extractor as broken
+(correspondence not established) while still running their cases."""
+import json, os, traceback
+
+HERE = os.path.dirname(os.path.abspath(__file__))
+CACHE = os.path.join(os.path.dirname(HERE), "lean", "TbotVerif", "Generated", "params_cache.json")
+MODULES = ("tcextract", "sshextract", "logextract", "quote_params", "ctxextract", "shellextract", "ubootextract",
+           "filesextract", "envextract", "runextract", "boardextract")
+
+
+def _load_cache():
+    try:
+        return json.load(open(CACHE))
+    except Exception:
+        return {}
 
 
 def extract(p: dict) -> None:
-    for modname in ("tcextract", "sshextract", "logextract", "quote_params", "ctxextract", "shellextract"):
+    cache = _load_cache()
+    failed = []
+    owners = {}
+    for modname in MODULES:
         try:
             mod = __import__(modname)
         except ImportError:
             continue
-        mod.extract(p)
+        q = {}
+        try:
+            mod.extract(q)
+        except BaseException as e:  # noqa: the extractor runs real tbot code
+            failed.append(modname + ": " + type(e).__name__)
+            for k, v in cache.get("values", {}).items():
+                if cache.get("owners", {}).get(k) == modname:
+                    q[k] = bytes(v["b"]) if isinstance(v, dict) and "b" in v else v
+        for k in q:
+            owners[k] = modname
+        p.update(q)
+    p["_failed"] = failed
+    p["_owners"] = owners
+
+
+def save_cache(p: dict) -> None:
+    if p.get("_failed"):
+        return
+    vals = {k: ({"b": list(v)} if isinstance(v, bytes) else v) for k, v in p.items() if not k.startswith("_")}
+    try:
+        json.dump({"values": vals, "owners": p.get("_owners", {})}, open(CACHE, "w"))
+    except Exception:
+        pass
